@@ -43,11 +43,12 @@ type Para struct {
 }
 
 type mField struct {
-	Key   string
-	First string   // text on the key line
-	Pad   string   // blanks after First (not part of the value)
-	Cont  []string // continuation lines as the VALUE has them ("" = an empty line, written " .")
-	CPad  []string // blanks after each continuation line (not part of the value)
+	Key     string
+	First   string   // text on the key line
+	Pad     string   // blanks after First (not part of the value)
+	Cont    []string // continuation lines as the VALUE has them ("" = an empty line, written " .")
+	CPad    []string // blanks after each continuation line (not part of the value)
+	Comment string   // if set: a comment line "#…" written before the key line (not part of anything)
 }
 
 type mDoc struct {
@@ -70,6 +71,9 @@ func (d mDoc) text() []byte {
 			b.WriteString(d.EOL)
 		}
 		for _, f := range p {
+			if f.Comment != "" {
+				b.WriteString("#" + f.Comment + d.EOL)
+			}
 			b.WriteString(f.Key + ": " + f.First + f.Pad + d.EOL)
 			for k, c := range f.Cont {
 				if c == "" {
@@ -285,7 +289,25 @@ func (o obs) String() string {
 	return fmt.Sprintf("%s; signer=%s; %d paragraph(s) delivered: %s", s, sg, len(o.delivered), b)
 }
 
-type wrap struct{ control.Paragraph }
+// wrap is what the Decoder access paths decode into: the raw paragraph plus TYPED members, some of which every
+// document has in some paragraphs only.
+type wrap struct {
+	control.Paragraph
+	Source, Package, Version, Description, Essential, Homepage string
+}
+
+// toParaTyped: the element's paragraph; a typed member that is not the value of ITS OWN paragraph (or not empty when
+// the paragraph lacks the field) is added as an extra entry, so that every comparison with the model fails visibly.
+func toParaTyped(w wrap) Para {
+	p := toPara(w.Paragraph)
+	for _, m := range []struct{ k, v string }{{"Source", w.Source}, {"Package", w.Package}, {"Version", w.Version},
+		{"Description", w.Description}, {"Essential", w.Essential}, {"Homepage", w.Homepage}} {
+		if m.v != w.Paragraph.Values[m.k] {
+			p.Values["<typed member "+m.k+" of this element>"] = m.v
+		}
+	}
+	return p
+}
 
 func toPara(p control.Paragraph) Para {
 	q := Para{Order: append([]string(nil), p.Order...), Values: map[string]string{}}
@@ -374,7 +396,7 @@ func observeRing(entry string, doc []byte, ring *openpgp.EntityList) (o obs) {
 				}
 			}
 			for _, w := range out {
-				o.delivered = append(o.delivered, toPara(w.Paragraph))
+				o.delivered = append(o.delivered, toParaTyped(w)) // after the whole read
 			}
 			if err != nil {
 				o.readErr = err.Error()
@@ -912,6 +934,7 @@ func Run(r *mc.Run) {
 	auditKeyrings(r, signed, K1, K2, entries)
 	keyringHistories(r, docs[0], K1, K2, []string{"reader", "decoder"})
 	interleavings(r, docs, K1, K2)
+	largeSigned(r, K1, entries)
 	subs := subsQuick
 	tamperRings := []ringSpec{{kind: "list", keys: []*key{K1}}}
 	if !r.Quick() {
